@@ -117,6 +117,10 @@ pub const E_ITER_REACTOR_TURNS: usize = C_ENGINE_BASE + 41;
 pub const E_ITER_CB_ERRORS: usize = C_ENGINE_BASE + 42;
 pub const E_CHAN_DROP_PANIC: usize = C_ENGINE_BASE + 43;
 pub const E_ITER_MIO_POLLS: usize = C_ENGINE_BASE + 44;
+pub const E_LOW_FD: usize = C_ENGINE_BASE + 45;
+pub const E_NESTED_IN_FOREIGN: usize = C_ENGINE_BASE + 46;
+pub const E_ITER_MIO_REREG: usize = C_ENGINE_BASE + 47;
+pub const E_ITER_WAKER_CHANGED: usize = C_ENGINE_BASE + 48;
 
 pub const REG_REAL: &[&str] = &[
     "signal-hook-registry (half_lock.rs, lib.rs): real code from /repo",
